@@ -7,6 +7,7 @@ import MotoModel.Props.C07
 import MotoModel.Proofs.DiskPreserve
 import MotoModel.Proofs.DiskRuns
 import MotoModel.Proofs.DiskUntouched
+import MotoModel.Proofs.DiskCatalogFrame
 namespace Moto.C06
 open Moto Moto.Disk
 
@@ -150,6 +151,27 @@ theorem used_blocks_never_modified (fl : Flavour) (w : Tape.World) (verbose : Bo
   obtain ⟨st, hst, hok, hkeep⟩ := batch_keeps_used_blocks w verbose img srcs himg hs
   rw [add_on_saved fl w verbose archive img srcs himg]
   refine ⟨st.img, hok, ?_, hkeep⟩
+  unfold performOn; rw [if_neg (by rw [himg.1]; omega), hst]
+
+/-- **C06 (… the allocation table and catalog sectors excepted, and there only the bytes describing the
+    added files — the whole invocation)**: `--add` on the archive of any consistent image with any batch:
+    on every side, each of the 112 catalog entries — together all the bytes of the fourteen catalog sectors,
+    live, deleted and never-used entries alike — holds the same 32 bytes in the written image unless it was
+    not a live entry and is one now (a file was stored in it); each status of the allocation table is the
+    same unless the block was free and no longer is (it was handed to a stored file). (Byte 0 and bytes
+    161..255 of the table sector: `table_sector_frame`.) -/
+theorem catalog_and_table_change_only_for_added_files (fl : Flavour) (w : Tape.World) (verbose : Bool) (archive : Str) (img : Image)
+    (srcs : List Str) (himg : ImgOk img) (hs : ∀ src ∈ srcs, CleanSrc src) :
+    ∃ img', ImgOk img'
+      ∧ (add fl w verbose archive (save fl img) srcs).writes = [(archive, save fl img')]
+      ∧ (∀ k, k < 4 → ∀ j, j < 112 →
+          slotData (img'.getD k []) j = slotData (img.getD k []) j
+          ∨ (¬ liveData (slotData (img.getD k []) j) ∧ liveData (slotData (img'.getD k []) j)))
+      ∧ (∀ k, k < 4 → ∀ bat, getBat (img.getD k []) = .ok bat → ∀ b, ∃ bat', getBat (img'.getD k []) = .ok bat'
+          ∧ (bat'.getD b 0 = bat.getD b 0 ∨ (isFree (bat.getD b 0) = true ∧ isFree (bat'.getD b 0) = false))) := by
+  obtain ⟨st, hst, hok, hcat, htab⟩ := batch_catalog_table_frame w verbose img srcs himg hs
+  rw [add_on_saved fl w verbose archive img srcs himg]
+  refine ⟨st.img, hok, ?_, hcat, htab⟩
   unfold performOn; rw [if_neg (by rw [himg.1]; omega), hst]
 
 end Moto.C06
